@@ -1,7 +1,8 @@
 """C14 - anomaly scores use the climatology at the same coordinates.
 
 E1, dev(k) over: climatology coverage (which times / locations it contains), storage order, missing cells in inputs and
-climatology, a zero in the climatology (for -C), a climatology value equal to the observation; full over {-c, -C} x axes x
+climatology, a zero in the climatology (for -C), a climatology value equal to the observation, an -obsrange (which must select
+on the raw observation, before the anomaly is taken); full over {-c, -C} x axes x
 N in {1,2} inputs.  Through verif.data.Data (in-memory) and through the CLI (text files).
 Oracles: (i) reference anomaly pipeline (value -/ climatology forecast at the same time, lead time, location; missing or
 non-finite -> dropped for every input; only obs and fcst altered); (ii) metamorphic: shift-invariant scores under -c equal
@@ -82,7 +83,12 @@ def build(ctx, n, seed):
         K.fields["fcst"][pos] = 0.0
     elif special == "equal-obs" and pos in K.fields["fcst"]:
         K.fields["fcst"][pos] = obsv[(K.times[pos[0]], K.leads[pos[1]], K.locs[pos[2]][0])]
-    return inputs, K, fcst_missing
+    # deviation: -obsrange, which selects on the raw observation (not on the anomaly)
+    orng = None
+    if ctx.choose("obsrange", ("none", "inner")) == "inner":
+        ov = sorted(set(obsv.values()))
+        orng = [ov[3], ov[-4]]
+    return inputs, K, fcst_missing, orng
 
 
 def score_api(data, metric, i, ax, thr):
@@ -99,15 +105,18 @@ def h_api(ctx):
     seed = core.seed()
     n = ctx.choose("inputs", (1, 2), free=True)
     ctype = ctx.choose("type", ("subtract", "divide"), free=True)
-    inputs, K, fcst_missing = build(ctx, n, seed)
+    inputs, K, fcst_missing, orng = build(ctx, n, seed)
     try:
-        ref = RD.RefData(inputs, clim=K, clim_type=ctype)
+        ref = RD.RefData(inputs, clim=K, clim_type=ctype, obs_range=orng)
     except RD.RefError:
         ref = None
     objs = CD.build_inputs(inputs + [K])
     lst = objs[:-1]
     n_before = len(lst)
-    kind, data, site, out = H.quiet_call(verif.data.Data, lst, clim=objs[-1], clim_type=ctype)
+    kw = {"obs_range": orng} if orng is not None else {}
+    if orng is not None:
+        ctx.flag("obsrange")
+    kind, data, site, out = H.quiet_call(verif.data.Data, lst, clim=objs[-1], clim_type=ctype, **kw)
     if ref is None:
         ctx.require(kind == "exit", "empty-intersection-not-rejected", kind=kind)
         ctx.outcome("rejected")
@@ -121,7 +130,7 @@ def h_api(ctx):
     for getter in ("get_names", "get_full_names", "get_short_names", "get_legend"):
         names = getattr(data, getter)()
         ctx.require(len(names) == n and not any("K" in str(x) for x in names), "clim:appears-in-%s" % getter, actual=[str(x) for x in names])
-    kind2, data2, site2, _ = H.quiet_call(verif.data.Data, lst, clim=objs[-1], clim_type=ctype)
+    kind2, data2, site2, _ = H.quiet_call(verif.data.Data, lst, clim=objs[-1], clim_type=ctype, **kw)
     if kind2 == "ok":
         ctx.require(data2.num_inputs == n and len(data2.get_names()) == n, "clim:counted-as-input-when-list-is-reused", expected=n, actual=data2.num_inputs)
     # (i) requests
@@ -151,7 +160,7 @@ def h_api(ctx):
     if ctype == "subtract":
         objs2 = CD.build_inputs(inputs + [K])
         # the extra input needs an obs field? no: it borrows the observations of a file that has them
-        kind3, data3, site3, _ = H.quiet_call(verif.data.Data, objs2)
+        kind3, data3, site3, _ = H.quiet_call(verif.data.Data, objs2, **kw)
         if kind3 == "ok":
             ctx.flag("metamorphic")
             for metric in INVARIANT:
@@ -174,19 +183,20 @@ def h_cli(ctx):
     n = ctx.choose("inputs", (1, 2), free=True)
     flag = ctx.choose("flag", ("-c", "-C"), free=True)
     ctype = "subtract" if flag == "-c" else "divide"
-    inputs, K, fcst_missing = build(ctx, n, seed)
+    inputs, K, fcst_missing, orng = build(ctx, n, seed)
     d = os.path.join(H.scratch(), "c14cli")
     os.makedirs(d, exist_ok=True)
     paths = [gen.text_file(ai, os.path.join(d, ai.name)) for ai in inputs]
     kp = gen.text_file(K, os.path.join(d, K.name), row_order=K.positions()[::-1])
     try:
-        ref = RD.RefData(inputs, clim=K, clim_type=ctype)
+        ref = RD.RefData(inputs, clim=K, clim_type=ctype, obs_range=orng)
     except RD.RefError:
         ref = None
+    extra = ["-obsrange", "%r,%r" % (orng[0], orng[1])] if orng is not None else []
     sig = []
     for metric in ("mae", "bias", "fcst"):
         for ax in ("leadtime", "location", "time"):
-            r = H.run_cli(paths + [flag, kp, "-m", metric, "-x", ax, "-type", "csv"])
+            r = H.run_cli(paths + [flag, kp, "-m", metric, "-x", ax, "-type", "csv"] + extra)
             if ref is None:
                 ctx.require(r.kind == "exit" and r.code not in (0, None), "cli:empty-intersection-not-rejected", kind=r.kind)
                 continue
@@ -224,9 +234,9 @@ def run(tier, only=None):
             continue
         t0 = time.time()
         st = explore.explore(h, mode=mode, k=k, repo_root=core.REPO, time_cap=(300 if tier == "quick" else 3000))
-        subs.append(core.Sub.from_e1(name, st, bound="dev(%d) over climatology coverage/order, missing cells, zero / equal-to-obs climatology value; full over {-c,-C} x {1,2} inputs" % k,
+        subs.append(core.Sub.from_e1(name, st, bound="dev(%d) over climatology coverage/order, missing cells, zero / equal-to-obs climatology value, -obsrange; full over {-c,-C} x {1,2} inputs" % k,
                                      rule="one execution = one dataset + climatology; requests, 9 metrics x 3 axes, metamorphic pair and naming checks; non-trivial = at least one valid case",
-                                     required_flags=("metamorphic",) if name == "api" else (), wall=time.time() - t0))
+                                     required_flags=("metamorphic", "obsrange") if name == "api" else (), wall=time.time() - t0))
     return subs
 
 
